@@ -172,7 +172,18 @@ class QueueTap:
         self._q, self._log, self._s, self._cap = q, log, searcher, cap
 
     def __iter__(self):
-        return self
+        # through the queue's own __iter__ (the searcher's loops iterate over the queue)
+        it = iter(self._q)
+        tap = self
+
+        class _It:
+            def __iter__(self):
+                return self
+
+            def __next__(self):
+                return tap._take(it)
+
+        return _It()
 
     def settle(self):
         if self._log and self._log[-1][3] is None:
@@ -180,10 +191,13 @@ class QueueTap:
             self._log[-1][3] = "verified" if (not self._s.expand_verified and self._s.ruledb.is_verified(lbl)) else False
 
     def __next__(self):
+        return self._take(self._q)
+
+    def _take(self, source):
         self.settle()
         if self._cap is not None and len(self._log) >= self._cap:
             raise _Enough()
-        item = next(self._q)
+        item = next(source)
         self._log.append([item[0], tuple(str(x) for x in item[1]), bool(item[2]), None])
         return item
 
@@ -206,8 +220,31 @@ def tap(s, cap=None):
     return log
 
 
+def reference_outcome(cfg):
+    """does an uninterrupted search of the same configuration (same tick clock) hand back a specification?"""
+    root, pack, db = specrun.build(cfg)
+    s = CombinatorialSpecificationSearcher(root, pack, ruledb=db, expand_verified=cfg["expand_verified"])
+    specrun.quiet()
+    real = css_mod.time
+    css_mod.time = LimitClock()
+    st = random.getstate()
+    random.seed(cfg["seed"])
+    try:
+        s.auto_search(perc=cfg["perc"])
+        return "spec"
+    except SpecificationNotFound:
+        return "nospec"
+    except Exception:  # noqa: BLE001
+        return "exc"
+    finally:
+        css_mod.time = real
+        random.setstate(st)
+        specrun.quiet()
+
+
 def time_limit_runs(cfg, limits):
     problems, runs = [], 0
+    ref = reference_outcome(cfg)
     for limit in limits:
         root, pack, db = specrun.build(cfg)
         s = CombinatorialSpecificationSearcher(root, pack, ruledb=db, expand_verified=cfg["expand_verified"])
@@ -226,6 +263,9 @@ def time_limit_runs(cfg, limits):
                 except ExceededMaxtimeError:
                     interrupted += 1
                 except SpecificationNotFound:
+                    if ref == "spec" and interrupted:
+                        problems.append(("interrupted-search-gives-up-although-the-uninterrupted-one-finds-a-specification",
+                                         f"limit={limit}, interrupted {interrupted} times, {len(packets)} packets taken"))
                     break
                 specrun.quiet()
         except RuntimeError as exc:
